@@ -39,6 +39,22 @@ def _eq(a, b):
         return False
 
 
+class Record:
+    """has __len__ and __getitem__(int), but indexing runs backwards relative to iteration"""
+
+    def __init__(self, items):
+        self.items = items
+
+    def __len__(self):
+        return len(self.items)
+
+    def __iter__(self):
+        return iter(self.items)
+
+    def __getitem__(self, i):
+        return self.items[len(self.items) - 1 - i]
+
+
 class MyList(list):
     """a list *subclass*: opaque to gather"""
 
@@ -284,7 +300,7 @@ def programs(tier):
                         for out in (("n", 2), ("list", [("n", 0), ("n", 2)]), ("dict", [(("str", "r"), ("n", 2)), (("n", 1), ("n", 0))])):
                             yield "call-chains", {"calls": [c1, c2, c3], "output": out}
     # F4: unpack
-    for kind in ("tuple", "list", "iter", "count"):
+    for kind in ("tuple", "list", "iter", "count", "dict-int-keys", "dict-str-keys", "record", "set", "str", "range", "deque"):
         for L in range(0, 5):
             if kind == "count" and L:
                 continue
@@ -327,18 +343,37 @@ def build(p):
                 return list(data)
             if kind == "iter":
                 return iter(list(data))
-            return itertools.count()
+            if kind == "count":
+                return itertools.count()
+            # objects that have __len__/__getitem__ but whose indexing is not their iteration:
+            # unpack must yield the n items of ITERATION
+            if kind == "dict-int-keys":
+                return {L - 1 - i: ("v", i) for i in range(L)}          # iteration: keys L-1 .. 0
+            if kind == "dict-str-keys":
+                return {f"k{i}": ("v", i) for i in range(L)}
+            if kind == "record":
+                return Record(list(data))
+            if kind == "set":
+                return set(range(L))
+            if kind == "str":
+                return "abcdefg"[:L]
+            if kind == "range":
+                return range(10, 10 + L)
+            import collections
+            return collections.deque(data)
         src.__name__ = "src"
+        expected_items = None if kind == "count" else list(src())
         s = plan.call(src)
         items = plan.unpack(s, n)
         # with n == 0 there are no item nodes: nothing requested depends on the unpack call, so it never runs
         if n > 0 and (kind == "count" or L != n):
             err = ValueError
+        exp_items = (expected_items or [])[:n]
         if p["use"] == "items":
             out_obj = list(items)
-            return plan, out_obj, (lambda vals: list(data[:n])), ident, nodes, err
+            return plan, out_obj, (lambda vals: list(exp_items)), ident, nodes, err
         c = plan.call(make_fn("h"), *items)
-        return plan, c, (lambda vals: Rec("h", tuple(data[:n]), ())), ident, nodes, err
+        return plan, c, (lambda vals: Rec("h", tuple(exp_items), ())), ident, nodes, err
     bo = mk(p["output"], nodes, ident)
 
     def ref(vals_unused):
